@@ -635,6 +635,55 @@ void group_op(Ctx& cx, G g, Flat)
         else
             rs.unsupported = true;
         break;
+    case G_ITER_FORMS:
+        if constexpr(Flat::value)
+        {
+            // the remaining forms of random-access iterator use: n + it, it - n, it++, it--, --it, the relational
+            // operators and it2 - it1. Operands are kept at 1 (positions are reached with advanced()), so every
+            // call is one the difference_type can express whatever the entry count
+            const std::ptrdiff_t n = static_cast<std::ptrdiff_t>(g.size());
+            const auto b = g.begin();
+            using It = typename std::remove_cv<decltype(b)>::type;
+            using D = typename It::difference_type;
+            rs.bits = 0;
+            for(std::ptrdiff_t i = 0; i < n; i++)
+            {
+                const It at = advanced(b, i);
+                const It next = advanced(b, i + 1); // may be end()
+                record_entry(cx, i == 0 ? *(static_cast<D>(0) + b) : *(static_cast<D>(1) + advanced(b, i - 1)));
+                record_entry(cx, *(next - static_cast<D>(1)));
+                {
+                    It t = at;
+                    It old = t++;
+                    record_entry(cx, *old);
+                    if(!(t == next)) rs.bits++;
+                }
+                {
+                    It t = next;
+                    It old = t--;
+                    record_entry(cx, *t);
+                    if(!(old == next)) rs.bits++;
+                }
+                {
+                    It t = next;
+                    --t;
+                    record_entry(cx, *t);
+                    if(t != at) rs.bits++;
+                }
+                const std::ptrdiff_t j = n - 1 - i;
+                const It other = advanced(b, j);
+                if((at < other) != (i < j)) rs.bits++;
+                if((at <= other) != (i <= j)) rs.bits++;
+                if((at > other) != (i > j)) rs.bits++;
+                if((at >= other) != (i >= j)) rs.bits++;
+                if((at == other) != (i == j)) rs.bits++;
+                if((at != other) != (i != j)) rs.bits++;
+                if(fits_difference<It>(j - i) && static_cast<std::ptrdiff_t>(other - at) != j - i) rs.bits++;
+            }
+        }
+        else
+            rs.unsupported = true;
+        break;
     case G_INDEX:
         if constexpr(Flat::value)
         {
@@ -1889,6 +1938,14 @@ void message_op(Ctx& cx, const SchemaShape& sh)
             // a const cursor: either made for the const view, or converted from a mutable one
             auto c0 = sbepp::init_cursor(m);
             sbepp::cursor<const ByteT> c = (rq.arg & 8) ? sbepp::cursor<const ByteT>{c0} : sbepp::init_const_cursor(cm);
+            if((rq.arg & 24) == 24)
+            {
+                // ... or by the converting *assignment* to a cursor that was somewhere else before
+                sbepp::cursor<const ByteT> other = sbepp::init_const_cursor(cm);
+                other.pointer() += 3;
+                other = c0;
+                c = other;
+            }
             rs.cursor_off = cx.off(c.pointer());
             cursor_level<L>(cx, cm, c, ss, 0);
             rs.cursor_off = cx.off(c.pointer());
